@@ -14,6 +14,8 @@ var pieces = []string{"a", "b", "c", "ab", "a/b", "/", "refs/", "heads/", "tags/
 
 var blockSizes = []uint32{0, 64, 64, 72, 80, 96, 100, 128, 128, 137, 160, 200, 256, 256, 300, 512, 1024, 4096, 65536}
 
+var varintEdges = []uint64{127, 128, 129, 16511, 16512, 16513, 2113663, 2113664, 2113665, 1<<32 - 1, 1 << 32, 1<<56 + 5, 1<<63 - 1, 1 << 63}
+
 func varintLen(v uint64) int {
 	n := 1
 	for v >>= 7; v != 0; v >>= 7 {
@@ -181,7 +183,7 @@ func drawRef(t *rapid.T, ng *NameGen, hp *HashPool, min, max uint64, maxRec int,
 	if max-min < 64 {
 		r.Idx = min + uint64(rapid.IntRange(0, int(max-min)).Draw(t, "idx"))
 	} else {
-		switch rapid.IntRange(0, 3).Draw(t, "idxKind") {
+		switch rapid.IntRange(0, 4).Draw(t, "idxKind") {
 		case 0:
 			r.Idx = min
 		case 1:
@@ -190,6 +192,13 @@ func drawRef(t *rapid.T, ng *NameGen, hp *HashPool, min, max uint64, maxRec int,
 			r.Idx = min + uint64(rapid.IntRange(0, 64).Draw(t, "idx"))
 		case 3:
 			r.Idx = rapid.Uint64Range(min, max).Draw(t, "idx")
+		case 4:
+			// deltas around the boundaries of the offset varint (1/2/3/4 bytes ... 10 bytes)
+			d := rapid.SampledFrom(varintEdges).Draw(t, "idxEdge")
+			if d > max-min {
+				d = max - min
+			}
+			r.Idx = min + d
 		}
 	}
 	r.Kind = rapid.SampledFrom(kinds).Draw(t, "kind")
@@ -220,6 +229,16 @@ func drawRef(t *rapid.T, ng *NameGen, hp *HashPool, min, max uint64, maxRec int,
 		room := avail - 2 // target length varint (<=2 for what we draw)
 		tl := rapid.IntRange(1, minInt(room-1, 60)).Draw(t, "targetLen")
 		tgt := ng.Draw(t, tl)
+		if room-1 > 140 && rapid.IntRange(0, 9).Draw(t, "longTarget") == 0 {
+			// targets around the 127/128 length-varint boundary and beyond
+			want := rapid.SampledFrom([]int{126, 127, 128, 129, 200, 300}).Draw(t, "targetLong")
+			if want > room-20 {
+				want = room - 20
+			}
+			for len(tgt) < want {
+				tgt += "t"
+			}
+		}
 		r.Target = Str(tgt)
 		nameMax = room - len(tgt)
 	}
@@ -227,7 +246,18 @@ func drawRef(t *rapid.T, ng *NameGen, hp *HashPool, min, max uint64, maxRec int,
 		return r, false
 	}
 	if nameMax > 250 {
-		nameMax = 250
+		if rapid.IntRange(0, 19).Draw(t, "longName") == 0 {
+			// rare: names around the 2-byte/3-byte boundary of the key-length varint (suffix length << 3)
+			want := rapid.SampledFrom([]int{255, 256, 1000, 2047, 2048, 2049, 2063, 2064, 3000}).Draw(t, "nameLong")
+			if want < nameMax {
+				pad = want
+			}
+			if nameMax > 3100 {
+				nameMax = 3100
+			}
+		} else {
+			nameMax = 250
+		}
 	}
 	name := ng.Draw(t, nameMax)
 	if pad > nameMax {
